@@ -253,6 +253,11 @@ def gen_cases(rng, tier):
                 if strat == "bdec":
                     c.update(m=rng.choice([2, 3, 3, 4]))
                 cases.append(c)
+        # grid interpolation in d = 2 (4 x 4 nodes, different bounds per dimension): inputs at grid nodes, so that
+        # q(f) must be the marginal of q(u) at the inducing points equal to the inputs (predictive only, see run_c14 5)
+        for dist in ("cholesky", "meanfield") * (1 if not big else 3):
+            cases.append(base("grid", dist, m=16, gsize=4, d=2, n=rng.randint(2, 3), family="grid2d",
+                              kernel=rng.choice(["rbf", "matern25", "scale_rbf"])))
         # the same grid once more with m forced to the largest size 5 (quick: plain strategies only)
         for strat in ("vs", "unwh", "ciq"):
             for dist in (DISTS if big else rng.sample(DISTS, 2)):
@@ -277,8 +282,12 @@ def gen_cases(rng, tier):
         # multitask wrappers
         for strat in ("lmc", "imt"):
             for dist in DISTS:
-                cases.append(base(strat, dist, m=rng.randint(2, 3), n=2, T=rng.randint(2, 3),
-                                  Q=rng.randint(1, 3), zbatch=rng.random() < 0.5, kbatch=rng.random() < 0.5))
+                T = rng.randint(2, 3)
+                nn = rng.randint(2, 3)
+                t0, st = rng.randrange(T), rng.randint(1, T - 1)   # neighbouring inputs on different tasks
+                cases.append(base(strat, dist, m=rng.randint(2, 3), n=nn, T=T,
+                                  Q=rng.randint(1, 3), zbatch=rng.random() < 0.5, kbatch=rng.random() < 0.5,
+                                  ti=[(t0 + i * st) % T for i in range(nn)]))
         # q(u) = p(u): q(f) must be the prior, KL = 0
         for strat in ("vs", "unwh", "ciq"):
             for dist in ("cholesky", "natural", "trilnatural") + (("meanfield",) if strat != "unwh" else ()):
@@ -347,7 +356,8 @@ def build(case):
             return V.OrthogonallyDecoupledVariationalStrategy(basevs, Zg, V.DeltaVariationalDistribution(Zg.size(-2)), **jkw)
     elif strat == "grid":
         lo, hi = -1.0, 1.0 + 0.25 * rng.randint(0, 4)
-        mk = lambda mod: V.GridInterpolationVariationalStrategy(mod, m, [(lo, hi)], vd)  # noqa: E731
+        gb = [(lo, hi)] if d == 1 else [(lo, hi), (lo + 0.5, hi + 1.0 + 0.25 * rng.randint(0, 4))]
+        mk = lambda mod: V.GridInterpolationVariationalStrategy(mod, case.get("gsize", m), gb, vd)  # noqa: E731
     elif strat == "lmc":
         mk = lambda mod: V.LMCVariationalStrategy(  # noqa: E731
             V.VariationalStrategy(mod, Z, vd, learn_inducing_locations=True, **jkw), num_tasks=case["T"],
@@ -372,12 +382,21 @@ def build(case):
         if strat == "lmc":
             vs.lmc_coefficients.copy_(torch.tensor([[dy(rng, -1.5, 1.5, 8) for _ in range(case["T"])]
                                                     for _ in range(case["Q"])]))
-        if strat == "grid":
+        if strat == "grid" and d == 1:
             g = vs.grid[:, 0]
             nodes = sorted(rng.sample(range(2, m - 2 + 1), min(n, m - 3))) if m - 3 >= 1 else [2]
             nodes = [rng.choice(range(1, m - 1)) for _ in range(n)]
             b.grid_idx = nodes
             X = g[nodes].clone().unsqueeze(-1)
+        elif strat == "grid":
+            # n distinct inducing points (public attribute) as inputs; at least one off the diagonal of the grid
+            gsz = case["gsize"]
+            for _ in range(100):
+                nodes = rng.sample(range(m), n)
+                if any(p % gsz != p // gsz for p in nodes):
+                    break
+            b.grid_idx = nodes
+            X = vs.inducing_points[nodes].detach().clone()
     b.model, b.vs, b.X, b.Zg = model, vs, X, Zg
     b.jit = float(vs.jitter_val) if strat not in ("lmc", "imt") else float(vs.base_variational_strategy.jitter_val)
     return b
@@ -452,6 +471,17 @@ def impl_outputs(b):
                 r["kl"] = b.vs.kl_divergence().detach().clone()
             except Exception as e:  # noqa: BLE001
                 r["kl_exc"] = "%s: %s" % (type(e).__name__, e)
+            if b.case["strat"] in ("lmc", "imt"):
+                # second public mode of the multitask wrappers: one task per input -> MultivariateNormal
+                ti = torch.tensor(b.case["ti"], dtype=torch.long)
+                try:
+                    o2 = b.model(b.X, task_indices=ti)
+                    r["ti_mean"] = o2.mean.detach().clone()
+                    r["ti_var"] = o2.variance.detach().clone()
+                    if mode == "eval":
+                        r["ti_cov"] = o2.covariance_matrix.detach().clone()
+                except Exception as e:  # noqa: BLE001
+                    r["ti_exc"] = "%s: %s" % (type(e).__name__, e)
             if mode == "eval" and not (b.case["strat"] == "ciq" and b.case["dist"] == "natural"):
                 q = base_strategy(b).variational_distribution
                 r["qmean"] = q.mean.detach().clone()
@@ -521,8 +551,8 @@ def plan(b, mode):
             out.append(("run_c14", coq_term(0, m, 0, 0, [r[:m] for r in Kb[:m]], mub[:m], (jzz, 0.0, 1e-3), kind, p1, p2,
                                             [[0.0]], [], []), dict(bi=bi, alt=True)))
         elif strat == "grid":
-            out.append(("run_c14", coq_term(2, m, n, 0, Kb, mub, (0.0, 0.0, 1e-3), kind, p1, p2, [[0.0]], [], b.grid_idx),
-                        dict(bi=bi)))
+            out.append(("run_c14", coq_term(5 if case["family"] == "grid2d" else 2, m, n, 0, Kb, mub, (0.0, 0.0, 1e-3),
+                                            kind, p1, p2, [[0.0]], [], b.grid_idx), dict(bi=bi)))
         elif strat == "orth":
             g = case["g"]
             mg = b.vs._variational_distribution.variational_mean.detach().tolist()
@@ -597,6 +627,15 @@ def compare_plain(out, b, impl, dec_by_mode):
                 out.fail("harness:root:%s" % tag, "root supplied to the model is not a root of Kzz", desc, no_input=True)
             mean_i = bsel(r["mean"], b.bshape, bi, 1)
             e = maxdiff(mean_i, dm["mean"])
+            if e > tol and case["family"] == "grid2d" and grid_lex_pairing(b, dm, mean_i, bsel(r["var"], b.bshape, bi, 1),
+                                                                         bsel(r["cov"], b.bshape, bi, 2)
+                                                                         if mode == "eval" else None, tol):
+                out.fail("grid:index-order:lex-index-into-colmajor-inducing-points:%s" % mode,
+                         "q(f) at the inducing point (grid_0[k0], grid_1[k1]) is the marginal of q(u) at the inducing "
+                         "point (grid_0[k1], grid_1[k0]): Interpolation.interpolate's flat index (dimension 0 slowest) is "
+                         "used on inducing points enumerated with dimension 0 fastest (mean off by %.3g)" % e, desc,
+                         impl=mean_i.tolist(), model=[float(v) for v in dm["mean"]])
+                continue
             if e > tol:
                 out.fail("mean:%s:%s" % (tag, mode), "q(f) mean differs from the closed form by %.3g" % e, desc,
                          impl=mean_i.tolist(), model=[float(v) for v in dm["mean"]])
@@ -635,6 +674,8 @@ def compare_plain(out, b, impl, dec_by_mode):
                                  "encode (%.3g)" % e, desc, impl=bsel(r["qcov"], b.bshape, bi, 2).tolist(),
                                  model=[[float(v) for v in row] for row in dm["qcov"]])
             # KL
+            if case["family"] == "grid2d":
+                continue      # m = 16: beyond the model's determinant; the KL code path is that of the d = 1 cases
             if "kl" not in r:
                 out.fail("kl-exception:%s:%s" % (tag, mode), "kl_divergence() raised %s" % r.get("kl_exc"), desc)
                 continue
@@ -666,16 +707,29 @@ def compare_plain(out, b, impl, dec_by_mode):
                     out.fail("harness:prior-family", "model KL at q(u)=p(u) is %.3g, not 0" % want, desc, no_input=True)
 
 
+def grid_lex_pairing(b, dm, mean_i, var_i, cov_i, tol):
+    """diagnosis for the d >= 2 grid strategy: do ALL outputs equal the marginal of q(u) at the nodes with the two
+    grid coordinates exchanged (flat index k0*g + k1 read in the k0 + g*k1 enumeration of the inducing points)?"""
+    g = b.case["gsize"]
+    alt = [(p % g) * g + p // g for p in b.grid_idx]
+    am = [dm["qmean"][p] for p in alt]
+    ac = [[dm["qcov"][p][q] for q in alt] for p in alt]
+    if maxdiff(mean_i, am) > tol or maxdiff(var_i, [ac[i][i] for i in range(len(alt))]) > tol:
+        return False
+    return cov_i is None or maxdiff(cov_i, ac) <= tol
+
+
 def run(out, ctx):
     tier, seed = ctx["tier"], ctx["seed"]
     rng = random.Random(seed * 104729 + 14)
     cases = gen_cases(rng, tier)
     out.rule = ("every strategy {VariationalStrategy, Unwhitened, CIQ (tight tolerances), BatchDecoupled, "
-                "OrthogonallyDecoupled, GridInterpolation (inputs at grid nodes), LMC, IndependentMultitask} x every "
+                "OrthogonallyDecoupled, GridInterpolation (inputs at grid nodes; d = 1 and a 4 x 4 grid in d = 2), LMC, IndependentMultitask (all-tasks and one-task-per-input task_indices mode)} x every "
                 "variational distribution {Cholesky (garbage above the diagonal, negative diagonal entries), MeanField "
                 "(negative stddev), Delta, Natural, TrilNatural}; inducing sets 2..5, d 1..2, 4 kernels x 3 means; batch "
                 "patterns none / model / x / both / params-only; families: random q(u), q(u)=p(u), X==Z (unwhitened "
-                "shortcut); eval mode mean+full covariance+KL, training mode mean+variance+KL. non-trivial = q(u) != p(u)")
+                "shortcut), initialize_variational_distribution round trip for every class; eval mode mean+full "
+                "covariance+KL, training mode mean+variance+KL. non-trivial = q(u) != p(u)")
     out.extra["tolerances"] = dict(TOL, kl="same as strategy", qu_moments=1e-8)
     built, jobs = [], {"run_c14": [], "run_c14_dec": []}
     for case in cases:
@@ -744,6 +798,8 @@ def run(out, ctx):
         for b, r in zip(mt_meta, r2):
             compare_mt(out, b, r)
     check_refusals(out)
+    if not ctx.get("only_cases"):
+        check_initialize(out, random.Random(seed * 7919 + 1414), tier)
     out.tested_not_proved = [
         "log-det part of KL(whitened) = KL(unwhitened) (needs det multiplicativity); compared numerically",
         "agreement of torch/linear_operator numerics (Cholesky, CG, contour-integral quadrature) with exact algebra",
@@ -810,6 +866,27 @@ def compare_mt(out, b, r):
             if e > 1e-8:
                 out.fail("cov:%s:eval" % tag, "multitask covariance differs from sum_q a_q a_q^T (x) C_q by %.3g" % e,
                          desc, impl=ri["cov"].tolist(), model=[[float(v) for v in row] for row in cov])
+        # task_indices mode: input i on task ti[i] = the marginal of the all-tasks joint at rows i*T + ti[i]
+        idx = [i * T + t for i, t in enumerate(case["ti"])]
+        if "ti_exc" in ri:
+            out.fail("task-indices-exception:%s:%s" % (tag, mode), "model(X, task_indices=...) raised %s" % ri["ti_exc"],
+                     desc)
+        else:
+            e = maxdiff(ri["ti_mean"], [mean[p] for p in idx])
+            if e > 1e-8:
+                out.fail("task-indices:mean:%s:%s" % (tag, mode), "one-task-per-input mean differs from the marginal of "
+                         "the all-tasks q(f) at (x_i, task_i) by %.3g" % e, desc, impl=ri["ti_mean"].tolist(),
+                         model=[float(mean[p]) for p in idx])
+            e = maxdiff(ri["ti_var"], [cov[p][p] for p in idx])
+            if e > 1e-8:
+                out.fail("task-indices:var:%s:%s" % (tag, mode), "one-task-per-input variance differs from the marginal "
+                         "of the all-tasks q(f) by %.3g" % e, desc)
+            if mode == "eval":
+                e = maxdiff(ri["ti_cov"], [[cov[p][q] for q in idx] for p in idx])
+                if e > 1e-8:
+                    out.fail("task-indices:cov:%s:eval" % tag, "one-task-per-input covariance differs from the marginal "
+                             "of the all-tasks q(f) at rows i*T + task_i by %.3g" % e, desc,
+                             impl=ri["ti_cov"].tolist(), model=[[float(cov[p][q]) for q in idx] for p in idx])
         want = float(sum(d["kl"] for d in decs))
         if "kl" not in ri:
             out.fail("kl-exception:%s:%s" % (tag, mode), "kl_divergence() raised %s" % ri.get("kl_exc"), desc)
@@ -825,6 +902,46 @@ def compare_mt(out, b, r):
             out.fail("qu-cov:%s" % dist, "variational distribution covariance is not what its parameters encode", desc)
 
 
+def check_initialize(out, rng, tier):
+    """initialize_variational_distribution(N(m, S)) is the inverse of the parameters -> (m, S) map (theorems
+    c14_moment_to_natural_roundtrip / c14_natural_to_moment_roundtrip): afterwards the distribution must BE
+    N(m, S) (mean-field: the diagonal of S; delta: a point mass at m).  The parameters -> moments direction is compared
+    with the Coq model by every other family (keys qu-mean / qu-cov)."""
+    for dist in DISTS:
+        for rep in range(3 if tier == "quick" else 12):
+            m = rng.randint(2, 5)
+            bs = [2] if rep % 3 == 2 else []
+            nb = 2 if bs else 1
+            mean = torch.tensor([[dy(rng, -1.5, 1.5) for _ in range(m)] for _ in range(nb)])
+            cov = torch.tensor(np.array([rand_spd(m, rng) for _ in range(nb)]))
+            if not bs:
+                mean, cov = mean[0], cov[0]
+            out.case(dict(family="initialize", dist=dist, m=m, batch=bs), True, label="initialize:" + dist)
+            try:
+                vd = make_dist(dist, m, bs)
+                vd.mean_init_std = 0.0
+                with torch.no_grad():
+                    vd.initialize_variational_distribution(gpytorch.distributions.MultivariateNormal(mean, cov))
+                    q = vd()
+                    qm = q.mean
+                    qc = None if dist == "delta" else q.covariance_matrix
+            except Exception as e:  # noqa: BLE001
+                out.fail("initialize-exception:%s:%s" % (dist, type(e).__name__),
+                         "initialize_variational_distribution raised %r" % e, dict(dist=dist, m=m, batch=bs))
+                continue
+            desc = dict(family="initialize", dist=dist, m=m, batch=bs, mean=mean.tolist(), cov=cov.tolist())
+            e = float((qm - mean).abs().max())
+            if not e <= 1e-8:
+                out.fail("initialize:mean:%s" % dist, "after initialize_variational_distribution(N(m,S)) the mean is off by "
+                         "%.3g" % e, desc, impl=qm.tolist(), model=mean.tolist())
+            if qc is not None:
+                want = torch.diag_embed(cov.diagonal(dim1=-1, dim2=-2)) if dist == "meanfield" else cov
+                e = float((qc - want).abs().max())
+                if not e <= 1e-8:
+                    out.fail("initialize:cov:%s" % dist, "after initialize_variational_distribution(N(m,S)) the covariance "
+                             "is off by %.3g" % e, desc, impl=qc.tolist(), model=want.tolist())
+
+
 def check_refusals(out):
     """documented refusals stay refusals (so that the grid above is the complete grid)"""
     try:
@@ -838,6 +955,22 @@ def check_refusals(out):
 def replay(path):
     d = json.load(open(path))
     case = d["case"]
+    if case.get("family") == "initialize":
+        dist, m = case["dist"], case["m"]
+        vd = make_dist(dist, m, case["batch"])
+        vd.mean_init_std = 0.0
+        mean, cov = torch.tensor(case["mean"]), torch.tensor(case["cov"])
+        with torch.no_grad():
+            vd.initialize_variational_distribution(gpytorch.distributions.MultivariateNormal(mean, cov))
+            q = vd()
+        print("wanted mean", mean.tolist(), "\n   got mean", q.mean.tolist())
+        bad = float((q.mean - mean).abs().max()) > 1e-8
+        if dist != "delta":
+            want = torch.diag_embed(cov.diagonal(dim1=-1, dim2=-2)) if dist == "meanfield" else cov
+            print("wanted cov", want.tolist(), "\n   got cov", q.covariance_matrix.tolist())
+            bad = bad or float((q.covariance_matrix - want).abs().max()) > 1e-8
+        print("FAILS" if bad else "agrees")
+        return 1 if bad else 0
     full = None
     # the stored case is the short description; regenerate the full one from the same seed/tier
     rng = random.Random(d["seed"] * 104729 + 14)
@@ -862,6 +995,6 @@ def run_cases(out, cases):
     saved = gen_cases
     try:
         gen_cases = lambda rng, tier: cases  # noqa: E731
-        run(out, dict(tier="quick", seed=out.seed))
+        run(out, dict(tier="quick", seed=out.seed, only_cases=True))
     finally:
         gen_cases = saved
